@@ -155,7 +155,8 @@ def _work(idx: int) -> dict:
                     d["failed"] += 1
                     if not any(v["label"] == lab for v in out["violations"]):
                         out["violations"].append({"label": lab, "instance": inst.name, "inputs": r.witness,
-                                                  "note": "fails on the real build for a solver-chosen input of a path the symbolic run accepted (model/implementation divergence)", "count": 1})
+                                                  "note": ("fails on the real build for a solver-chosen input of a path the symbolic run accepted (model/implementation divergence)"
+                                                           if not r.failed else "fails on the real build for the witness input of a path on which the symbolic run refutes other assertions"), "count": 1})
             if err is not None:
                 out["validation_mismatch"].append({"why": "concrete run raised: " + err[:600], "inputs": _short(r.witness)})
             else:
